@@ -57,6 +57,10 @@ func (p Parser) Parse(src io.Reader) (f File) {
 		f.Diagnostics = cr.diagnostics
 		f.Comments = cr.comments
 		f.TotalLines = cr.lineno
+		if f.Error.Err != nil && f.TotalLines > 0 && f.Error.Line > f.TotalLines {
+			// The YAML decoder places errors found at the end of the stream on the line after the last one.
+			f.Error.Line = f.TotalLines
+		}
 	}()
 
 	f.IsRelaxed = !p.isStrict
